@@ -21,6 +21,7 @@ RULE = ('one evaluation = one seeded simulated run: 2-4 clients (threads sharing
         'shared-object runs) by a seeded scheduler (uniform / sticky / PCT); in a tenth of the runs one client runs evict(tag) / expire() / clear() over 101-150 prefilled rows while the others replace rows it has yet to reach (a bulk removal is a series of atomic per-row steps, each taking a row only while it still matches; rows nobody wrote to must all be gone); non-trivial = at least one context switch '
         'between clients; distinct = distinct SHA-256 of the full seam event log')
 RULE += ' ' + 'In one run in twelve the clients work on two counters that are removed and created again holding the same few small numbers (incr / pop / delete / set of 1 or 2).'
+RULE += ' ' + 'In runs with a 60 s timeout and no injected stall or busy answer a call that raises Timeout is flagged.'
 ASSUMPTIONS = ['interleaving granularity is the seam call (and sampled source lines in shared-object runs); SQLite statements are atomic',
                'iteration is checked for per-key weak consistency, not as an atomic snapshot (generator protocol)']
 PROBES = ('lock_wait', 'stmt_blocked', 'tolerated_miss', 'file_backed_read', 'line_yield_runs', 'bulk_removal_races', 'iterations_over_pages')
@@ -425,6 +426,15 @@ def run_case(case):
         if r and r[0] == 'exc' and r[1] == 'TypeError' and h['op']['op'] not in ('incr', 'decr'):
             violations.append({'rule': 'C05/unexpected-exception', 'sig': r[1],
                                'detail': '%s op %s -> %s' % (h['task'], h['op'], r)})
+    if case['cfg'].get('timeout', 60) >= 60 and not case.get('faults'):
+        # nobody holds the write lock for anything like the 60 s a caller is prepared to wait (no stall, no spurious busy
+        # answer injected): a call that gives up with Timeout did not wait as configured (C14)
+        for h in out['history']:
+            r = h['res']
+            if r and r[0] == 'exc' and r[1] == 'Timeout' and not violations:
+                violations.append({'rule': 'C05/timeout-without-cause', 'sig': h['op']['op'],
+                                   'detail': '%s op %s raised Timeout although the lock was never held for more than a moment (timeout %s s)'
+                                             % (h['task'], json.dumps(h['op'])[:120], case['cfg'].get('timeout', 60))})
     check_history(out['history'], violations, probes, case['cfg'].get('prefill'))
     if case['cfg'].get('prefill') and not violations:
         check_bulk_complete(case, out, violations)
